@@ -112,7 +112,8 @@ Inductive keyarg := KNull | KValid (n : N) | KInvalid.
    PhSer: inside a bincode serialize_into (header config, archive footer, SizesInfo) whose
           error is replaced by Error::SerializationError;
    PhFinish: while brotli's CompressorWriter::into_inner() finishes the stream in
-          CompressionLayerWriter::finalize (compress.rs:678-682) — brotli drops the error;
+          CompressionLayerWriter::finalize — brotli drops the error, the layer checks its
+          counting writer afterwards and reports it (repair K20-FINISH) -> Error::IOError;
    PhFlushCb: the flush callback itself. *)
 Inductive phase := PhRaw | PhSer | PhFinish | PhFlushCb.
 Inductive ioev := IoOk | IoFail (ph : phase).
@@ -301,7 +302,6 @@ Section CApi.
           | (_, Ok _) =>
             if a_poison ar then (s1, Ret IOError) else
             match io with
-            | IoFail PhFinish => (s1, Ret Success)       (* error dropped by brotli: FINDING *)
             | IoFail ph => (s1, Ret (st_of_phase ph))
             | IoOk => (push_done s1 (a_ops ar ++ [OFinalize]), Ret Success)
             end
